@@ -371,6 +371,38 @@ fn stmt(st: &mut St, t: &[&str]) -> String {
             }
             out.join(",")
         }
+        "ctorstr" => {
+            // C17: build an SmtString through a public constructor from arbitrary integers / code
+            // points, then use it with the rest of the crate (regex construction, membership, Display)
+            let kind = c.next();
+            let xs = c.word();
+            let s: SmtString = match kind {
+                "str" => {
+                    let t: String = xs.iter().filter_map(|&x| char::from_u32(x)).collect();
+                    SmtString::from(t.as_str())
+                }
+                "string" => {
+                    let t: String = xs.iter().filter_map(|&x| char::from_u32(x)).collect();
+                    SmtString::from(t)
+                }
+                "char" => SmtString::from(char::from_u32(xs[0]).unwrap()),
+                "u32" => SmtString::from(xs[0]),
+                "slice" => SmtString::from(&xs[..]),
+                "vec" => SmtString::from(xs.clone()),
+                "parse" => {
+                    let t: String = xs.iter().filter_map(|&x| char::from_u32(x)).collect();
+                    aws_smt_strings::smt_strings::parse_smt_literal(&t)
+                }
+                _ => panic!("bad kind"),
+            };
+            let good = s.is_good();
+            let r = st.m.str(&s);
+            let mem = st.m.str_in_re(&s, r);
+            let printed = format!("{}", s);
+            let ascii = printed.chars().all(|ch| (ch as u32) >= 32 && (ch as u32) < 127);
+            st.v.push(r);
+            format!("word={} good={} re={} mem={} ascii={}", word_show(s.as_ref()).replace(' ', ","), b(good), r.verif_dump(), b(mem), b(ascii))
+        }
         "compile" => {
             let a = term(st, &mut c);
             let aut = st.m.compile(a);
